@@ -161,8 +161,8 @@ def gen_full(rng, size="small", force=None):
             al = {"id": "alt%d" % a, "location": {"lon": 7.3 + 0.01 * a, "lat": 51.3}}
             if p(0.5):
                 al["duration"] = 120
-            if F["capacity"] and p(0.4) and not any(isinstance(s.get("quantity"), dict) for s in stops):
-                al["quantity"] = -1
+            if F["capacity"] and p(F.get("alt_quantity_p", 0.4)) and not any(isinstance(s.get("quantity"), dict) for s in stops):
+                al["quantity"] = -1 if "alt_quantity_p" not in F else rng.choice([-2, -1, -3])
             # alternates carry the temporal fields of a stop as well - some of them only
             if F["windows"] and p(0.5):
                 a0 = T0 + 60 * rng.randint(0, 90)
@@ -181,7 +181,7 @@ def gen_full(rng, size="small", force=None):
             for ve in vehicles:
                 ve.setdefault("start_time", rfc(T0 + rng.choice([0, 600, 3600])))
         for ve in vehicles:
-            if p(0.6):
+            if p(F.get("alt_vehicle_p", 0.6)):
                 ve["alternate_stops"] = rng.sample([a["id"] for a in alts], rng.randint(1, nalt))
     if F["initial"]:
         tied = set()
